@@ -15,6 +15,7 @@ import (
 	"sync"
 	"sync/atomic"
 
+	"github.com/mlange-42/arche/ecs"
 	"verifharness/gen18"
 	"verifharness/runner"
 	"verifharness/sim"
@@ -100,6 +101,9 @@ func c19Interleave(rp *runner.Report) {
 	}
 	total1, total2 := len(h1), len(h2)
 	h1, h2 = thin(h1), thin(h2)
+	if len(h1) < total1 || len(h2) < total2 {
+		rp.Exhaustive = false
+	}
 	ms := merges(length, length)
 	var execs int64
 	var next int64 = -1
@@ -176,6 +180,112 @@ func c19Interleave(rp *runner.Report) {
 		rp.Samples = append(rp.Samples, map[string]interface{}{"world1": wx.PathStrings(c1, h1[len(h1)/2].ops), "world2": wx.PathStrings(c2, h2[len(h2)/3].ops), "merge": fmt.Sprint(ms[len(ms)/2])})
 	}
 	fmt.Printf("  interleavings: %d x %d histories (of %d x %d of length %d), %d merge orders each: %d merged executions\n", len(h1), len(h2), total1, total2, length, len(ms), execs)
+}
+
+// c19SharedDump: two worlds loaded from the same EntityDump object must still be independent.
+func c19SharedDump(rp *runner.Report) {
+	// the dump: three entities created, the middle one removed; the Entities slice has spare capacity (as after
+	// deserialisation into a pre-allocated buffer)
+	mk := func() *ecs.EntityDump {
+		w := ecs.NewWorld()
+		w.NewEntity()
+		e := w.NewEntity()
+		w.NewEntity()
+		w.RemoveEntity(e)
+		d := w.DumpEntities()
+		d.Entities = append(make([]ecs.Entity, 0, 512), d.Entities...)
+		d.Alive = append(make([]uint32, 0, 512), d.Alive...)
+		return &d
+	}
+	solo := func(id string, capInc int) *sim.Cfg {
+		c := sim.EntCfg(id, 6, capInc, fBNew|fBRem, sim.OState|sim.OTranscript)
+		c.PreloadDump = mk
+		return c.P("C19")
+	}
+	c1, c2 := solo("c19-dump-w1", 1), solo("c19-dump-w2", 128)
+	length := 3
+	h1 := c19Histories(c1, length, 100000)
+	h2 := c19Histories(c2, length, 100000)
+	ms := merges(length, length)
+	var execs int64
+	reported := false
+	var mu sync.Mutex
+	var wg sync.WaitGroup
+	var next int64 = -1
+	for wk := 0; wk < runtime.NumCPU(); wk++ {
+		wg.Add(1)
+		go func() {
+			defer wg.Done()
+			for {
+				i := int(atomic.AddInt64(&next, 1))
+				if i >= len(h1) {
+					return
+				}
+				a := &h1[i]
+				for j := range h2 {
+					b := &h2[j]
+					for _, m := range ms {
+						shared := mk()
+						s1, s2 := *c1, *c2
+						s1.PreloadDump = func() *ecs.EntityDump { return shared }
+						s2.PreloadDump = func() *ecs.EntityDump { return shared }
+						ra, rb := sim.NewRun(&s1), sim.NewRun(&s2)
+						ia, ib := 0, 0
+						bad := ""
+						for _, first := range m {
+							if first {
+								if x := ra.Apply(a.ops[ia]); x.Fail != nil {
+									bad = "world 1: " + x.Fail.Msg
+								}
+								ia++
+							} else {
+								if x := rb.Apply(b.ops[ib]); x.Fail != nil {
+									bad = "world 2: " + x.Fail.Msg
+								}
+								ib++
+							}
+						}
+						if bad == "" {
+							if f := ra.Check(); f != nil {
+								bad = "world 1: " + f.Msg
+							} else if f := rb.Check(); f != nil {
+								bad = "world 2: " + f.Msg
+							}
+						}
+						atomic.AddInt64(&execs, 1)
+						if bad == "" && (ra.Hist() != a.hist || string(ra.Key(nil)) != a.key || rb.Hist() != b.hist || string(rb.Key(nil)) != b.key) {
+							bad = "a world loaded from a shared dump observed something different than when it runs alone"
+						}
+						if bad != "" {
+							mu.Lock()
+							if !reported {
+								reported = true
+								hist := []string{"both worlds: LoadEntities(&d) with the same dump object d (three entities issued, the middle one removed)"}
+								ia, ib = 0, 0
+								for _, first := range m {
+									if first {
+										hist = append(hist, "world1: "+c1.OpString(a.ops[ia]))
+										ia++
+									} else {
+										hist = append(hist, "world2: "+c2.OpString(b.ops[ib]))
+										ib++
+									}
+								}
+								rp.Violation(&runner.ReplayFile{Scenario: "c19-shared-dump", Sig: "isolation:shared-dump", Msg: bad, OpsText: hist, Kind: "c19"})
+							}
+							mu.Unlock()
+							return
+						}
+					}
+				}
+			}
+		}()
+	}
+	wg.Wait()
+	rp.States += len(h1) * len(h2)
+	rp.Trans += int(execs)
+	rp.Extra["shared_dump"] = map[string]interface{}{"histories_world1": len(h1), "histories_world2": len(h2), "history_length": length, "merged_executions": execs}
+	fmt.Printf("  shared dump: %d x %d histories, %d merge orders each: %d merged executions\n", len(h1), len(h2), len(ms), execs)
 }
 
 // C19RaceBody is run by the -race build: the same history bodies, free-running on one goroutine per world.
@@ -327,6 +437,7 @@ func c19Scan(rp *runner.Report) {
 func init() {
 	Checks["C19"] = func(rp *runner.Report) int {
 		c19Interleave(rp)
+		c19SharedDump(rp)
 		c19Race(rp)
 		c19Scan(rp)
 		rp.NoRuns = true
